@@ -236,6 +236,46 @@ func c18(r *rep.Run) {
 			}()), "names": len(names)})
 		}
 	})
+	// chains of unary operators over every operand value (an optimiser may cancel pairs)
+	{
+		h := hs[0]
+		for _, v := range vals {
+			for _, chain := range [][]string{{"not", "not"}, {"!", "!"}, {"not", "!"}, {"not", "not", "not"}, {"!", "not", "!", "not"}} {
+				for form := 0; form < 2; form++ {
+					inner := c18Lit(v)
+					vars := []term.VarDecl{{Name: "v0", Ty: term.TX}}
+					if form == 1 {
+						inner = "v0"
+					}
+					src := inner
+					var want interface{} = v
+					var werr error
+					for i := len(chain) - 1; i >= 0; i-- {
+						src = "(" + chain[i] + " " + src + ")"
+						if werr == nil {
+							want, werr = ref.Builtin(chain[i], []interface{}{want})
+						}
+					}
+					for _, o := range opts {
+						e, err := h.Compile(h.NewConfig(vars, o), src, 0)
+						var got drive.Out
+						if err != nil {
+							got = drive.Out{Err: err}
+						} else {
+							f := drive.NewFetcher(h, vars, o)
+							f.Vals[0] = v
+							h.Reset()
+							got = h.Eval(e, f)
+						}
+						atomic.AddInt64(&evals, 1)
+						if !drive.SameOutcome(got, refOut(want, werr)) {
+							r.Violate("algebra", "chain"+src, sprintf("%s = %s but the operators' algebra gives %s", src, got, refOut(want, werr)), map[string]interface{}{"source": src, "config": o.String()})
+						}
+					}
+				}
+			}
+		}
+	}
 	r.Cov["operand_tuples"] = tuples
 	r.Add(tuples, evals, evals, evals, nontrivial)
 	r.Finish()
